@@ -537,7 +537,7 @@ def run(tier):
         if quick:
             new, info = _schedules(graph, 130, 30, 30, 150, rnd, next_id)
         else:
-            new, info = _schedules(graph, 2000, 400, 400, 3000, rnd, next_id)
+            new, info = _schedules(graph, 1000, 200, 200, 1500, rnd, next_id)   # ~13k real replays
         cases += new
         sched_info[cfg] = info
     cov["schedules"] = sched_info
